@@ -6,6 +6,11 @@ list-of-lists shape up to 4 x 4 is pushed through the real `operation_list_hash`
 `operation_list_list_hash`, `block_payload_hash` (base58 in, base58 out) and the underlying
 `_reduce_operation_hashes`, and compared with the plain-Python reference in mc/ref/merkle.py (pad to a
 power of two with copies of the last leaf, reduce pairwise; own Base58Check).
+
+"All hash values" includes values that look special to the encoding layer underneath: a further family plants every
+binary kind prefix of the Base58 kinds involved (o, B, Lo, LLo, vh), a zero pair and a ones pair at EVERY offset of an
+operation hash (first / last / every position of lists of several lengths) and of the predecessor block hash, and uses inner
+lists whose own list hash contains the Lo prefix (found by enumeration with the reference).
 """
 from __future__ import annotations
 
@@ -19,12 +24,17 @@ LEVEL = 'exploration'
 RULE = ('cases = (function, input list) pairs; inputs: every length 0..N with distinct leaves, every word of length '
         '<=L over the hash alphabet {00*32, ff*32[, third]}, every list-of-lists shape (outer<=4, inner<=4) with distinct '
         'leaves and every list of <=K inner words of length <=2 over {00*32, ff*32}; payload rounds/predecessors from a '
-        'small set.  Non-trivial = the input needs padding (some length is not a power of two) or repeats a leaf; '
+        'small set; every (pattern, offset) with pattern in {binary prefixes of o B Lo LLo vh, 0000, ffff} planted into an '
+        'operation hash at first/last/all positions of lists of length 1,2,3,5 and into the predecessor with 0,1,3 operations; '
+        'list-of-lists containing the first inner lists (singleton, pair) whose Lo hash contains the Lo prefix.  '
+        'Non-trivial = the input needs padding (some length is not a power of two) or repeats a leaf or carries a planted pattern; '
         'distinct by (function, input, round, predecessor)')
 BOUND = {
-    'quick': 'lengths 0..260 (crosses 2^8); words <=10 over 2 hashes; list-lists 4x4 shapes + <=3 inner words; rounds {0,1,2^31-1}',
+    'quick': 'lengths 0..260 (crosses 2^8); words <=10 over 2 hashes; list-lists 4x4 shapes + <=3 inner words; rounds {0,1,2^31-1}; '
+             '7 patterns x every offset x 8 placements + predecessor x 3 lengths; 4 self-prefixed inner lists x 5 placements',
     'thorough': 'lengths 0..1100 (crosses 2^10); words <=12 over 2 hashes and <=7 over 3; list-lists 4x4 shapes + <=4 '
-                'inner words; rounds {0,1,255,256,65536,2^31-1}; 3 predecessors',
+                'inner words; rounds {0,1,255,256,65536,2^31-1}; 3 predecessors; planted patterns as quick on 3 carrier hashes; '
+                '8 self-prefixed inner lists',
 }
 ASSUMPTIONS = [
     'reference Merkle root = the construction in the property statement (validated against the three mainnet/ithacanet '
@@ -61,6 +71,36 @@ def needs_padding(n):
     return n > 1 and n & (n - 1) != 0
 
 
+PATTERNS = sorted({ref.PREFIX[k] for k in ('o', 'B', 'Lo', 'LLo', 'vh')} | {b'\x00\x00', b'\xff\xff'})
+PLACEMENTS = [(1, 'first'), (2, 'first'), (2, 'last'), (3, 'last'), (3, 'all'), (5, 'first'), (5, 'last'), (5, 'all')]
+_CARRIERS: list = []
+_SELFPREF: dict = {}
+
+
+def planted(pat, off, carrier=0):
+    """32-byte hash = carrier hash with `pat` written at offset `off`."""
+    while len(_CARRIERS) <= carrier:
+        _CARRIERS.append(ref.H(b'verif-c31-carrier' + bytes([len(_CARRIERS)])))
+    b = bytearray(_CARRIERS[carrier])
+    b[off:off + len(pat)] = pat
+    assert len(b) == 32
+    return bytes(b)
+
+
+def selfprefixed(count):
+    """First `count` inner lists (singletons then pairs of pool leaves) whose Merkle root contains the Lo kind prefix."""
+    if count not in _SELFPREF:
+        found, i, p = [], 0, ref.PREFIX['Lo']
+        while len(found) < count:
+            for cand in ([i], [i, i + 1]):
+                pool = leaves(i + 2)
+                if p in ref.merkle_root([pool[j] for j in cand]) and len(found) < count:
+                    found.append(cand)
+            i += 1
+        _SELFPREF[count] = found
+    return _SELFPREF[count]
+
+
 def inputs_of(case):
     """Concrete (function, variant, args) evaluations of one case.  Lists are raw 32-byte hashes."""
     k = case['kind']
@@ -93,6 +133,24 @@ def inputs_of(case):
         out.append(('ollh', 'shape', lists))
     elif k == 'llw':
         out.append(('ollh', 'words', [[LETTERS[c] for c in w] for w in case['words']]))
+    elif k == 'embed':
+        special = planted(bytes(case['pat']), case['off'], case['carrier'])
+        n, pos = case['n'], case['pos']
+        if pos == 'pred':
+            out.append(('bph', (special, 2), leaves(n)))
+            return out
+        plain = leaves(n)
+        ops = [special if (pos == 'all' or (pos == 'first' and i == 0) or (pos == 'last' and i == n - 1)) else plain[i]
+               for i in range(n)]
+        out.append(('olh', None, ops))
+        out.append(('bph', (0, 1), ops))
+        out.append(('ollh', 'mixed', [ops, [], [], ops[:1]]))
+    elif k == 'selfpref':
+        pool = leaves(max(case['idx']) + 1)
+        inner = [pool[j] for j in case['idx']]
+        other = leaves(3)
+        out.append(('ollh', 'selfpref', {'alone': [inner], 'first': [inner, other], 'last': [other, [], inner],
+                                         'twice': [inner, inner], 'middle': [[], inner, other[:1], []]}[case['place']]))
     else:
         raise ValueError(k)
     return out
@@ -110,7 +168,7 @@ def impl(func, variant, arg):
         return h.operation_list_list_hash([[enc(o) for o in l] for l in arg])
     if func == 'bph':
         p, rnd = variant
-        return h.block_payload_hash(base58_encode(PREDS[p], b'B').decode(), rnd, [enc(o) for o in arg])
+        return h.block_payload_hash(base58_encode(pred_of(p), b'B').decode(), rnd, [enc(o) for o in arg])
     raise ValueError(func)
 
 
@@ -122,11 +180,21 @@ def reference(func, variant, arg):
     if func == 'ollh':
         return ref.operation_list_list_hash(arg)
     p, rnd = variant
-    return ref.block_payload_hash(PREDS[p], rnd, arg)
+    return ref.block_payload_hash(pred_of(p), rnd, arg)
+
+
+def pred_of(p):
+    return PREDS[p] if isinstance(p, int) else p
 
 
 FUNC_NAME = {'reduce': '_reduce_operation_hashes', 'olh': 'operation_list_hash', 'ollh': 'operation_list_list_hash',
              'bph': 'block_payload_hash'}
+
+
+def vtxt(variant):
+    if isinstance(variant, tuple):
+        return tuple(v.hex() if isinstance(v, bytes) else v for v in variant)
+    return variant
 
 
 def evaluate(case):
@@ -142,6 +210,12 @@ def evaluate(case):
         else:
             sh = shape(len(arg))
             nt = needs_padding(len(arg)) or len(set(arg)) < len(arg)
+        if case['kind'] == 'embed':
+            sh += ', planted ' + ('predecessor' if case['pos'] == 'pred' else 'operation hash')
+            nt = True
+        elif case['kind'] == 'selfpref':
+            sh += ', inner hash contains its kind prefix'
+            nt = True
         want = reference(func, variant, arg)
         try:
             got = impl(func, variant, arg)
@@ -153,7 +227,7 @@ def evaluate(case):
             g = got.hex() if isinstance(got, bytes) else got
             w = want.hex() if isinstance(want, bytes) else want
             res.append((func, variant, sh, nt, f'{FUNC_NAME[func]} differs from the Merkle root on {sh} list',
-                        f'variant={variant} got={g} expected={w}'))
+                        f'variant={vtxt(variant)} got={g} expected={w}'))
         else:
             res.append((func, variant, sh, nt, None, ''))
     return res
@@ -185,6 +259,16 @@ def all_cases(tier):
     for outer in range(0, (4 if thorough else 3) + 1):
         for ws in itertools.product(inner, repeat=outer):
             yield {'kind': 'llw', 'words': list(ws)}
+    for carrier in range(3 if thorough else 1):
+        for pat in PATTERNS:
+            for off in range(0, 32 - len(pat) + 1):
+                for n, pos in PLACEMENTS:
+                    yield {'kind': 'embed', 'pat': pat, 'off': off, 'carrier': carrier, 'n': n, 'pos': pos}
+                for n in (0, 1, 3):
+                    yield {'kind': 'embed', 'pat': pat, 'off': off, 'carrier': carrier, 'n': n, 'pos': 'pred'}
+    for idx in selfprefixed(8 if thorough else 4):
+        for place in ('alone', 'first', 'last', 'twice', 'middle'):
+            yield {'kind': 'selfpref', 'idx': idx, 'place': place}
 
 
 NSHARDS = {'quick': 16, 'thorough': 64}
@@ -206,7 +290,8 @@ def run_shard(spec, tier):
             r.ev()
             if nt:
                 r.nt((func, variant, case['kind'], case.get('n'), case.get('word'), tuple(case.get('lens', ())),
-                      tuple(case.get('words', ()))))
+                      tuple(case.get('words', ())), case.get('pat'), case.get('off'), case.get('carrier'), case.get('pos'),
+                      tuple(case.get('idx', ())), case.get('place')))
             r.out(f'{func}: {sh}: ' + ('equal' if desc is None else 'MISMATCH'))
             if desc is not None:
                 r.viol(desc, case, detail)
@@ -232,5 +317,5 @@ def observe(case):
             got = impl(func, variant, arg)
         except Exception as e:  # noqa
             got = f'raise {type(e).__name__}'
-        out.append([func, variant, got])
+        out.append([func, vtxt(variant), got])
     return out
